@@ -62,6 +62,17 @@ CLAIMED["C02"] = dict(
     ref="DESIGN.md section 2 / C02",
     note=NOTE_COMMON + "; dtype kinds and the source-field geometry are concrete configurations (dtype is not a solver notion)",
 )
+CLAIMED["C03"] = dict(
+    text="Expression trees (all of depth 1, a strided subset of depth 2, thorough: depth 3) over vector/scalar fields, symbolic "
+         "numbers, constant vectors and per-cell arrays with + - * / **2 **3 unary -/+/abs dot/@ cross/& << and numpy ufuncs, "
+         "either operand order, are evaluated by the real Field operators on free symbolic cell values and symbolic validity "
+         "bits; an independent cell-wise evaluator with numpy broadcasting gives the expected entry for every cell and "
+         "component; result mesh, validity (AND), operand snapshots (array object and entries, validity, labels, mapping, mesh "
+         "geometry) are further obligations; a*b==b*a / a+b==b+a attribute by attribute incl. labels and mapping; restacking "
+         "components; complex parts and complex dot products on symbolic real/imaginary parts; refusals for shifted meshes "
+         "(symbolic offset beyond the tolerance), other cell counts, incompatible nvdim, unsupported types.",
+    ref="DESIGN.md section 2 / C03",
+)
 PENDING_REASON = "check not built yet in this round (planned: DESIGN.md section 2); not claimed until it runs green"
 NA = {}
 
